@@ -67,6 +67,28 @@ def run(ck, w):
     else:
         ck.fail(o, ip.name, "starts_with removed", "is_prefix_of no longer tests starts_with")
 
+    o = ck.ob("C12.1c", "Apath::is_prefix_of tests starts_with(candidate, self) and looks at the single position right after the prefix: no API that "
+                        "strips a pattern repeatedly, searches elsewhere in the string or folds case")
+    fam = lib.family("apath::Apath::is_prefix_of")
+    wrong = re.compile(r"<impl str>::(trim_start_matches|trim_end_matches|trim_matches|trim_left_matches|trim_right_matches|replace|replacen|contains|"
+                       r"rfind|rsplit|rsplitn|rsplit_once|split_once|matches|match_indices|rmatch_indices|eq_ignore_ascii_case|to_lowercase|to_uppercase|"
+                       r"to_ascii_lowercase|to_ascii_uppercase|trim|trim_start|trim_end)$|<impl \[u8\]>::(eq_ignore_ascii_case|to_ascii_lowercase)$")
+    bad = [(fb, e) for fb in fam for e in fb.events if e.bb in fb.live and wrong.search(e.name)]
+    sw_ok = False
+    for e in sw:
+        recv = flow.origins_x(lib, ip, e.args[0])
+        pat = flow.origins_x(lib, ip, e.args[1]) if len(e.args) > 1 else set()
+        if any(x[0] == "param" and x[1] == "a" for x in recv) and any(x[0] == "param" and x[1] == "self" for x in pat):
+            sw_ok = True
+    if bad:
+        fb, e = bad[0]
+        ck.fail(o, ip.name, "prefix remainder taken with an API of different meaning",
+                "is_prefix_of calls %s, which does not mean 'what follows this one prefix'" % e.name.split("::")[-1], e.site())
+    elif sw and not sw_ok:
+        ck.fail(o, ip.name, "starts_with operands changed", "starts_with is not candidate.starts_with(self)", sw[0].site())
+    else:
+        ck.ok(o)
+
     # ---- 2. GUARD in Stitch::next -----------------------------------------------------------------
     sn = w.body("index::stitch::Stitch::next")
     o = ck.ob("C12.2", "Stitch::next returns an entry only if subtree.is_prefix_of(entry.apath) was true and exclude.matches(entry.apath) was false")
